@@ -354,10 +354,12 @@ Fixpoint rb_adds (q : list rmsg) : N :=
 Definition len {A} (l : list A) : N := N.of_nat (length l).
 
 (* the broker's recorded capacities *)
-Definition b_scap (w : world) : option N :=
-  match br_ch w with Some ch => match ch_s ch with Claimed _ c => Some c | _ => None end | None => None end.
-Definition b_rcap (w : world) : option N :=
-  match br_ch w with Some ch => match ch_r ch with Claimed _ c => Some c | _ => None end | None => None end.
+Definition scap_of (b : option chan) : option N :=
+  match b with Some ch => match ch_s ch with Claimed _ c => Some c | _ => None end | None => None end.
+Definition rcap_of (b : option chan) : option N :=
+  match b with Some ch => match ch_r ch with Claimed _ c => Some c | _ => None end | None => None end.
+Definition b_scap (w : world) : option N := scap_of (br_ch w).
+Definition b_rcap (w : world) : option N := rcap_of (br_ch w).
 
 (* nothing in flight *)
 Definition quiet (w : world) : Prop :=
